@@ -87,12 +87,7 @@ func c21Expect(cc *c21Case) (want []string, mustFail bool) {
 			if cc.Pod != "" && n.pod != cc.Pod {
 				continue
 			}
-			switch cc.Labels {
-			case "k:v":
-				if !n.labelled {
-					continue
-				}
-			case "k:w":
+			if !c21Carries(n.labelled, cc.Labels) {
 				continue
 			}
 			if excl[name] {
@@ -109,6 +104,18 @@ func c21Expect(cc *c21Case) (want []string, mustFail bool) {
 	}
 	sort.Strings(want)
 	return want, false
+}
+
+// c21Carries: labelled nodes carry exactly {k:v}; a requested label matches only a node that
+// has the key with that very value (so "k:w", "k:" and "m:" - an empty value, a key nobody has - match nobody)
+func c21Carries(labelled bool, req string) bool {
+	switch req {
+	case "":
+		return true
+	case "k:v":
+		return labelled
+	}
+	return false
 }
 
 func c21Labels(s string) map[string]string {
@@ -129,7 +136,7 @@ func c21Cases(thorough bool, backend string) []c21Case {
 	}
 	names := []string{"a", "b", "c", "d", "missing"}
 	excludes := [][]string{nil, {"a"}, {"d"}, {"a", "d"}}
-	labels := []string{"", "k:v", "k:w"}
+	labels := []string{"", "k:v", "k:w", "k:", "m:"}
 	// 1. pod-based selection: every exclude subset x label set x All x podname
 	for _, pod := range []string{"p1", ""} {
 		for _, all := range []bool{false, true} {
@@ -179,11 +186,11 @@ func c21Explore(t *testing.T, c *vcore.Ctx) {
 	if c.Thorough() {
 		maxLen = 4
 	}
-	c.SetRule("node filters over pods p1{a up+label k:v, b down (no heartbeat), c bypassed+label k:v}, p2{d up}: include lists = every sequence over {a,b,c,d,missing} up to length 3 (thorough 4) with repeats in every order; otherwise every exclude subset of {a,d} x labels {none,{k:v},{k:w}} x All{F,T} x podname {p1, empty=all pods}; observed through CalculateCapacity(DUMMY) node-capacity keys, ListImage per-node messages (multiset) and CreateWorkload(EACH,1) placements; both store backends; non-trivial = cases whose expected selection differs from 'all nodes of the pod' (a filter actually removes or adds something) or whose include list has repeats / foreign-pod / non-up nodes")
+	c.SetRule("node filters over pods p1{a up+label k:v, b down (no heartbeat), c bypassed+label k:v}, p2{d up}: include lists = every sequence over {a,b,c,d,missing} up to length 3 (thorough 4) with repeats in every order; otherwise every exclude subset of {a,d} x labels {none,{k:v},{k:w},{k:''} (carried key, empty value),{m:''} (key nobody carries, empty value)} x All{F,T} x podname {p1, empty=all pods}; observed through CalculateCapacity(DUMMY) node-capacity keys, ListImage per-node messages (multiset) and CreateWorkload(EACH,1) placements; both store backends; non-trivial = cases whose expected selection differs from 'all nodes of the pod' (a filter actually removes or adds something) or whose include list has repeats / foreign-pod / non-up nodes")
 	c.Bound("include_list_max_len", maxLen)
 	c.Bound("nodes", "a(up,k:v) b(down) c(bypassed,k:v) @p1; d(up) @p2; plus one non-existent name")
 	c.Bound("exclude_sets", "subsets of {a,d}")
-	c.Bound("label_sets", "none, {k:v}, {k:w}")
+	c.Bound("label_sets", "none, {k:v}, {k:w}, {k:''}, {m:''}")
 	c.Bound("backends", "etcd, redis")
 	c.Assume("every node has capacity for the 1-byte request, so the DUMMY capacity map has one key per node handed to the resource manager")
 	base := 0
@@ -471,7 +478,7 @@ func c21Extra(cc *c21Case, got, want []string, viol func(sig, detail string)) {
 			rep("excluded-node-selected", fmt.Sprintf("excluded node %s was acted on", n))
 		case cc.Pod != "" && w.pod != cc.Pod:
 			rep("other-pod-node-selected", fmt.Sprintf("node %s of pod %s was acted on", n, w.pod))
-		case cc.Labels == "k:w" || (cc.Labels == "k:v" && !w.labelled):
+		case !c21Carries(w.labelled, cc.Labels):
 			rep("label-ignored", fmt.Sprintf("node %s does not carry the requested labels", n))
 		case !cc.All && w.down:
 			rep("down-node-selected", fmt.Sprintf("down node %s was acted on without All", n))
